@@ -286,7 +286,8 @@ class CHECK(core.Check):
                "MAX_LINE_SIZE bytes + CR the code's LineTooLong test depends on whether the LF has arrived)",
                "histories of a reused parser (close / makeParser / idle parse in the orders Patron and Valet produce) are "
                "in the model and judged by the oracle; the theorems cover makeParser + parse (C29_reused_parser_is_fresh)",
-               "responses with Content-Type text/event-stream (body handed to EventSource, see C33) and request targets "
+               "responses with Content-Type text/event-stream are in the model (event source = Model/Sse.lean; events, retry "
+               "and last id compared) but the split theorems are stated for non-evented messages; request targets "
                "whose netloc has brackets or non-ASCII characters are explicitly outside the model ('unmodelled')"]
     TECHNIQUE = ("Lean 4 theorems (generic script theorem for a resumable parser: a stream that is a sequence of segments "
                  "each consumed whole and waited for on every proper prefix is parsed to the same state under every "
